@@ -457,6 +457,25 @@ impl CasObjectInfoV1 {
 //@ end
 }
 
+impl CasObjectInfoV1 {
+//@ extract cas_object/src/cas_object_format.rs in `impl CasObjectInfoV1` fn has_chunk_hashes
+//@ ret r
+//@ contract
+        ensures /*@C07*/ r == (self.chunk_hashes@.len() != 0),
+//@ end
+}
+impl CasObject {
+//@ extract cas_object/src/cas_object_format.rs in `impl CasObject` fn serialize_given_info
+//@ ret r
+//@ contract
+        requires
+            info.num_chunks == info.chunk_hashes@.len(), info.num_chunks == info.chunk_boundary_offsets@.len(), info.num_chunks == info.unpacked_chunk_offsets@.len(),
+            info_len(info.num_chunks as nat) <= u32::MAX,
+        ensures
+            /*@C07*/ r matches Ok((cas, total)) ==> cas.info == info && cas.info_length == info_len(info.num_chunks as nat) && total == info_len(info.num_chunks as nat) + 4,
+//@ end
+}
+
 // C07 at table level: what `serialize` stores and what the accessors compute from it agree with the input chunk list --
 // the byte range of chunks a..b is [bytes written for chunks 0..a, bytes written for chunks 0..b), and the uncompressed
 // length of the range is the distance of the input's unpacked boundaries.
